@@ -37,6 +37,16 @@ pub open spec fn link_ok(l: Option<TreeId>, i: int, len: int) -> bool { l matche
 pub open spec fn node_ok<T>(n: TreeNode<T>, i: int, len: int) -> bool {
     link_ok(n.sibling, i, len) && link_ok(n.child_first, i, len) && link_ok(n.child_last, i, len)
 }
+// the child_last shortcut is consistent: a node has a last child iff it has a first one, the last child has no sibling after it,
+// and no two nodes share a last child (a node has one parent)
+pub open spec fn last_ok<T>(store: Seq<TreeNode<T>>, i: int) -> bool {
+    &&& (store[i].child_first is None) == (store[i].child_last is None)
+    &&& (store[i].child_last matches Some(l) ==> 0 <= l.0 < store.len() && store[l.0 as int].sibling is None)
+}
+pub open spec fn kids_wf<T>(store: Seq<TreeNode<T>>) -> bool {
+    &&& forall|i: int| 0 <= i < store.len() ==> #[trigger] last_ok(store, i)
+    &&& forall|i: int, j: int| 0 <= i < store.len() && 0 <= j < store.len() && i != j && (#[trigger] store[i]).child_last is Some ==> store[i].child_last != (#[trigger] store[j]).child_last
+}
 pub open spec fn tree_wf<T>(store: Seq<TreeNode<T>>) -> bool {
     forall|i: int| 0 <= i < store.len() ==> node_ok(#[trigger] store[i], i, store.len() as int)
 }
@@ -157,8 +167,9 @@ pub trait TreeMut: Tree {
         ensures r@ == old(self).spec_store(), final(self).spec_store() == final(r)@, final(self).spec_id() == old(self).spec_id();
 
     //@ fn trait TreeMut: Tree :: push ret=r
-    //@+ requires tree_wf(old(self).spec_store()), old(self).spec_id().0 < old(self).spec_store().len(), old(self).spec_store().len() < usize::MAX,
+    //@+ requires tree_wf(old(self).spec_store()), kids_wf(old(self).spec_store()), old(self).spec_id().0 < old(self).spec_store().len(), old(self).spec_store().len() < usize::MAX,
     //@+ ensures
+    //@+     kids_wf(r.store@),
     //@+     // a new node is allocated at the end of the arena and linked as the LAST child of this node
     //@+     r.id.0 == old(self).spec_store().len(), r.store@.len() == old(self).spec_store().len() + 1,
     //@+     tree_wf(r.store@), values_kept(old(self).spec_store(), r.store@), r.store@[r.id.0 as int].value == value,
@@ -168,13 +179,15 @@ pub trait TreeMut: Tree {
     //@+     old(self).spec_store()[old(self).spec_id().0 as int].child_last matches Some(l) ==> r.store@[l.0 as int].sibling == Some(r.id)
     //@+         && r.store@[old(self).spec_id().0 as int].child_first == old(self).spec_store()[old(self).spec_id().0 as int].child_first,
     //@proof start proof { let s0 = old(self).spec_store(); let root = old(self).spec_id().0 as int; assert(node_ok(s0[root], root, s0.len() as int)); }
+    //@proof before:/TreeMutView\s\{\n\s+store,\n\s+id:\schild_id/ proof { let s0 = old(self).spec_store(); let s2 = store@; let root = root_id as int; let n = s0.len() as int; assert(last_ok(s0, root)); assert forall|i: int| 0 <= i < s2.len() implies #[trigger] last_ok(s2, i) by { if i < n { assert(last_ok(s0, i)); if i != root && s0[i].child_last is Some { assert(s0[i].child_last != s0[root].child_last); } } } assert forall|i: int, j: int| 0 <= i < s2.len() && 0 <= j < s2.len() && i != j && (#[trigger] s2[i]).child_last is Some implies s2[i].child_last != (#[trigger] s2[j]).child_last by { if i < n { assert(last_ok(s0, i)); } if j < n { assert(last_ok(s0, j)); } if i < n && j < n && i != root && j != root { assert(s0[i].child_last is Some); assert(s0[i].child_last != s0[j].child_last); } } }
 
     //@ fn trait TreeMut: Tree :: view_mut ret=r
     //@+ ensures r.store@ == old(self).spec_store(), r.id == old(self).spec_id(),
 
     //@ fn trait TreeMut: Tree :: pop ret=r
-    //@+ requires tree_wf(old(self).spec_store()), old(self).spec_id().0 < old(self).spec_store().len(),
+    //@+ requires tree_wf(old(self).spec_store()), kids_wf(old(self).spec_store()), old(self).spec_id().0 < old(self).spec_store().len(),
     //@+ ensures
+    //@+     r matches Some(v) ==> kids_wf(v.store@),
     //@+     // detaches the FIRST child: the node's child list now starts at that child's sibling; nothing else is relinked
     //@+     match old(self).spec_store()[old(self).spec_id().0 as int].child_first {
     //@+         None => r is None,
@@ -184,6 +197,7 @@ pub trait TreeMut: Tree {
     //@+             && v.store@[c.0 as int].sibling is None,
     //@+     },
     //@proof start proof { let s0 = old(self).spec_store(); let root = old(self).spec_id().0 as int; assert(node_ok(s0[root], root, s0.len() as int)); if s0[root].child_first is Some { let c = s0[root].child_first->Some_0.0 as int; assert(node_ok(s0[c], c, s0.len() as int)); } }
+    //@proof before:/Some\(TreeMutView\s\{/ proof { let s0 = old(self).spec_store(); let s2 = store@; let root = root_id as int; let c = child_id.0 as int; assert(last_ok(s0, root)); assert forall|i: int| 0 <= i < s2.len() implies #[trigger] last_ok(s2, i) by { assert(last_ok(s0, i)); } assert forall|i: int, j: int| 0 <= i < s2.len() && 0 <= j < s2.len() && i != j && (#[trigger] s2[i]).child_last is Some implies s2[i].child_last != (#[trigger] s2[j]).child_last by { assert(s0[i].child_last is Some); assert(s0[i].child_last != s0[j].child_last); } }
 
     //@ fn trait TreeMut: Tree :: child_mut ret=r
     //@+ requires old(self).spec_id().0 < old(self).spec_store().len(),
@@ -196,9 +210,9 @@ pub trait TreeMut: Tree {
 
 impl<'a, T> TreeMutView<'a, T> {
     //@ fn impl<'a, T> TreeMutView<'a, T> :: new ret=r
-    //@+ requires tree_wf(old(store)@), old(store)@.len() < usize::MAX,
-    //@+ ensures r.id.0 == old(store)@.len(), r.store@ == old(store)@.push(TreeNode { value, sibling: None, child_first: None, child_last: None }), tree_wf(r.store@),
-    //@proof before:/Self\s\{\sstore,\sid\s\}/ proof { let s1 = store@; assert forall|i: int| 0 <= i < s1.len() implies node_ok(#[trigger] s1[i], i, s1.len() as int) by { if i < s1.len() - 1 { assert(node_ok(old(store)@[i], i, old(store)@.len() as int)); } } }
+    //@+ requires tree_wf(old(store)@), kids_wf(old(store)@), old(store)@.len() < usize::MAX,
+    //@+ ensures kids_wf(r.store@), r.id.0 == old(store)@.len(), r.store@ == old(store)@.push(TreeNode { value, sibling: None, child_first: None, child_last: None }), tree_wf(r.store@),
+    //@proof before:/Self\s\{\sstore,\sid\s\}/ proof { let s1 = store@; assert forall|i: int| 0 <= i < s1.len() implies node_ok(#[trigger] s1[i], i, s1.len() as int) by { if i < s1.len() - 1 { assert(node_ok(old(store)@[i], i, old(store)@.len() as int)); } } assert forall|i: int| 0 <= i < s1.len() implies #[trigger] last_ok(s1, i) by { if i < s1.len() - 1 { assert(last_ok(old(store)@, i)); } } assert forall|i: int, j: int| 0 <= i < s1.len() && 0 <= j < s1.len() && i != j && (#[trigger] s1[i]).child_last is Some implies s1[i].child_last != (#[trigger] s1[j]).child_last by { if j < s1.len() - 1 { assert(old(store)@[i].child_last != old(store)@[j].child_last); } } }
 
     //@ fn impl<'a, T> TreeMutView<'a, T> :: sibling ret=r
     //@subst N21 `mut self` parameter (unsupported) rebound as a mutable local /sibling\(mut self\)/sibling(self)/
